@@ -188,6 +188,7 @@ def run(ctx: core.Ctx):
     finally:
         ctx.notes["oracle_queries"] = dlg.queries
         dlg.close()
+    core.acc_dispatch(ctx, ['spi'])
     ctx.trusted += ["native model driver (Hdc/Model/Stats.lean at Float)", "SciPy special functions as oracle for the model's parameters", "harness/props/c08.py oracle"]
 
 
